@@ -63,7 +63,7 @@ def lookup(vals, path):
 class P(EngProp):
     id = "C06"
     rule = ("per case one parser stage after an always-true selector over 2-8 records: json (all fields / field list / path expressions) over generated objects with keys "
-            "needing sanitisation, duplicate keys, escapes, numbers, bools, nulls, nested objects and arrays, trailing garbage, and malformed lines (cut inside a key, not an "
+            "needing sanitisation, duplicate keys, escapes, numbers, bools, nulls, nested objects and arrays, trailing garbage, and malformed lines (cut inside a key, a broken value below the top level followed by well-formed lines, not an "
             "object, not JSON); logfmt (all / list / renames) with quoted values and malformed pairs; regexp with named groups over delimiter-separated lines (ground truth "
             "from the construction of the line); pattern with 2-3 captures incl. empty fields and `_`; unpack over packed entries incl. malformed. Expected: count = N, every "
             "line kept unchanged (unpack: _entry), and for every entry the full expected label set, computed by the generator from the fields it rendered.")
@@ -81,8 +81,15 @@ class P(EngProp):
         lines = []
         if kind in ("json", "jsonsome", "jsonpath"):
             for _ in range(nrec):
-                jl = JLine(rng, egen.gen_jdoc(rng), malform=rng.choice([None, None, None, None, None, "cut", "trailing", "array", "bad"]))
+                jl = JLine(rng, egen.gen_jdoc(rng), malform=rng.choice([None, None, None, None, None, None, "cut", "trailing", "array", "bad", "badval", "badval"]))
                 docs.append(jl); lines.append(jl.text); jsonl.append((B(jl.text), jl.coq))
+            if kind == "jsonpath" and nrec >= 3 and rng.random() < 0.6:
+                # a line broken below the top level followed by well-formed ones: a stage is a function of the line it is given, not of the lines before
+                jl = JLine(rng, egen.gen_jdoc(rng), malform="badval")
+                docs[0] = jl; lines[0] = jl.text; jsonl[0] = (B(jl.text), jl.coq)
+                for j in (1, 2):
+                    jl = JLine(rng, egen.gen_jdoc(rng))
+                    docs[j] = jl; lines[j] = jl.text; jsonl[j] = (B(jl.text), jl.coq)
         elif kind in ("logfmt", "logfmtsome"):
             for _ in range(nrec):
                 l = LFLine(rng, malform=rng.random() < 0.2)
